@@ -48,6 +48,10 @@ theorem w2ssItem_eq_pushSlice (b : Script.Bytes)
   · decide
   · simp [Plan.w2ssItem, h]
 
+/-- an item longer than 4 bytes (every signature, every public key) is not a script number -/
+theorem readScriptInt_long (b : Script.Bytes) (h : 4 < b.length) : Plan.readScriptInt b = none := by
+  simp [Plan.readScriptInt, Script.numDecode, h]
+
 /-! ### tracked satisfactions -/
 
 structure TSat where
@@ -445,7 +449,7 @@ def tSatDissat (c : SatCfg) : Ms → TSatDissat
   | .alt x | .swap x | .check x | .zeroNotEqual x => tSatDissat c x
   | .dupIf x => ⟨lockFree Sat.push0, tPush .pushOne (tSatDissat c x).sat⟩
   | .verify x => ⟨lockFree Sat.IMPOSSIBLE, (tSatDissat c x).sat⟩
-  | .nonZero x => ⟨lockFree Sat.IMPOSSIBLE, (tSatDissat c x).sat⟩
+  | .nonZero x => ⟨lockFree Sat.push0, (tSatDissat c x).sat⟩
   | .andB l r =>
     let l := tSatDissat c l; let r := tSatDissat c r
     ⟨tConcatenateRev l.dissat r.dissat, tConcatenateRev l.sat r.sat⟩
